@@ -505,8 +505,9 @@ func TestVerif_C17_Exhaustive(t *testing.T) {
 		vk.Exhaustive("all add/delete/commit/evict/reload sequences of length <=4 over the nine 2-byte keys on {0,1,2} and of length <=6 over the keys {0000,0001,0002,0100}, each under page size 2/cache 1 and page size 3/cache 2 (complete when all shards of the unit ran)")
 	} else {
 		c17Exhaust(vk, "u9/len<=3/npp2", u9, 3, cfgA)
-		c17Exhaust(vk, "u4/len<=5/npp3", u4, 5, cfgB)
-		vk.Exhaustive("all add/delete/commit/evict/reload sequences of length <=3 over the nine 2-byte keys on {0,1,2} (page size 2, cache 1) and of length <=5 over {0000,0001,0002,0100} (page size 3, cache 2) (complete when all shards of the unit ran)")
+		c17Exhaust(vk, "u4/len<=4/npp2", u4, 4, cfgA)
+		c17Exhaust(vk, "u4/len<=4/npp3", u4, 4, cfgB)
+		vk.Exhaustive("all add/delete/commit/evict/reload sequences of length <=3 over the nine 2-byte keys on {0,1,2} (page size 2, cache 1) and of length <=4 over {0000,0001,0002,0100} (page size 2/cache 1 and page size 3/cache 2) (complete when all shards of the unit ran)")
 	}
 }
 
